@@ -147,6 +147,20 @@ func (b *Builder) AddCapture(captureIndex uint32, isStart bool, next StateID) St
 // look is the assertion type (start/end of text/line).
 // next is the state to transition to if the assertion succeeds.
 func (b *Builder) AddLook(look Look, next StateID) StateID {
+	// Look-around assertions make DFA transitions depend on the kind of the
+	// consumed byte ('\n' for line anchors, word/non-word for \b and \B), so
+	// those bytes must not share an equivalence class with other bytes.
+	// Otherwise a cached lazy-DFA transition computed for 'a' is reused for ' '.
+	switch look {
+	case LookStartLine, LookEndLine:
+		b.byteClassSet.SetByte('\n')
+	case LookWordBoundary, LookNoWordBoundary:
+		b.byteClassSet.SetRange('0', '9')
+		b.byteClassSet.SetRange('A', 'Z')
+		b.byteClassSet.SetByte('_')
+		b.byteClassSet.SetRange('a', 'z')
+	}
+
 	id := StateID(conv.IntToUint32(len(b.states)))
 	b.states = append(b.states, State{
 		id:   id,
